@@ -340,6 +340,13 @@ def replay(data):
         return 1 if bad else 0
     name = data["key"].split("[")[0].split(":")[0]
     print("replaying", data["key"], "on the real function")
+    if name in ("pivots", "bounded", "history", "rabc") or "sequence" in inp:
+        seq = [np.array(x, dtype=np.int8) for x in inp["sequence"]] if "sequence" in inp else arrs
+        bad = [(_dtype_contracts(x.copy()), x.shape) for x in seq]
+        bad = [b for b in bad if b[0]]
+        for why, shp in bad:
+            print(f"REPRODUCED on a {shp[0]}x{shp[1]} matrix: {why}")
+        return 1 if bad else 0
     if name.startswith(("rref", "bounded")) and len(arrs) == 1:
         ok, info = C._native_rref_ok(arrs[0])
         try:
